@@ -787,8 +787,14 @@ func (p *Protocol) readLoop() {
 				if p.pendingRecvBytes+msgLen <= limit {
 					p.pendingRecvBytes += msgLen
 					p.pendingRecvSizes = append(p.pendingRecvSizes, msgLen)
+					if verifSegEnabled {
+						verifSegTrace(p, "acc", msgLen, p.pendingRecvBytes, limit)
+					}
 					p.pendingBytesMu.Unlock()
 					break
+				}
+				if verifSegEnabled {
+					verifSegTrace(p, "wait", msgLen, p.pendingRecvBytes, limit)
 				}
 				p.pendingBytesMu.Unlock()
 				// Wait briefly for recvLoop to drain pending bytes
@@ -804,6 +810,9 @@ func (p *Protocol) readLoop() {
 			p.pendingBytesMu.Lock()
 			p.pendingRecvBytes += msgLen
 			p.pendingRecvSizes = append(p.pendingRecvSizes, msgLen)
+			if verifSegEnabled {
+				verifSegTrace(p, "acc", msgLen, p.pendingRecvBytes, limit)
+			}
 			p.pendingBytesMu.Unlock()
 		}
 		if verifEnabled {
@@ -876,6 +885,9 @@ func (p *Protocol) recvLoop() {
 				p.pendingRecvBytes -= size
 				if p.pendingRecvBytes < 0 {
 					p.pendingRecvBytes = 0
+				}
+				if verifSegEnabled {
+					verifSegTrace(p, "rel", size, p.pendingRecvBytes, 0)
 				}
 			}
 			p.pendingBytesMu.Unlock()
